@@ -52,6 +52,9 @@ func genStorePlan(class string) func(r *prng) *plan {
 			p.Cfg["big"] = 1 // items above 5% of capacity allowed
 		}
 		p.Cfg["sched"] = int64(r.u64() >> 1)
+		if class == "crash" && r.chance(50) {
+			p.Cfg["preempt"] = int64([]int{1, 2, 5, 20}[r.intn(4)])
+		}
 		nids := 6 + r.intn(40)
 		p.Cfg["nids"] = int64(nids)
 		p.Cfg["idflavour"] = int64(r.intn(3))
@@ -124,20 +127,24 @@ type storeSim struct {
 	refusedBytes            int
 	linearSeen, linearBroke int
 	usageKnown              bool
-	w                       *world
-	p                       *plan
-	disk                    *simDisk
-	db                      *pebble.DB
-	st                      storage.ContentStorage
-	cs                      *spebble.ContentStorage
-	nodeID                  enode.ID
-	ids                     [][32]byte
-	model                   map[[32]byte][]byte   // what a get must return now
-	ever                    map[[32]byte][][]byte // every value ever put under the id
-	maxItem                 int                   // largest key+value accepted so far
-	held                    []retained
-	lastRadius              *uint256.Int
-	opIdx                   int
+	// seeded preemption of the goroutine inside Put (crash classes): the database's own goroutines (WAL flusher,
+	// flush, compaction) then run between the store's writes as they do on a machine with more than one core,
+	// so that two records written one after the other reach the file system in separate operations
+	preempt, preempts uint64
+	w                 *world
+	p                 *plan
+	disk              *simDisk
+	db                *pebble.DB
+	st                storage.ContentStorage
+	cs                *spebble.ContentStorage
+	nodeID            enode.ID
+	ids               [][32]byte
+	model             map[[32]byte][]byte   // what a get must return now
+	ever              map[[32]byte][][]byte // every value ever put under the id
+	maxItem           int                   // largest key+value accepted so far
+	held              []retained
+	lastRadius        *uint256.Int
+	opIdx             int
 	// yield scheduler
 	tasks           map[uint64]*ytask
 	crashMode       string
@@ -211,6 +218,7 @@ func runStore(seed uint64, engine, class string) {
 	w.res.Class = class
 	s := &storeSim{w: w, p: p, model: map[[32]byte][]byte{}, ever: map[[32]byte][][]byte{}, tasks: map[uint64]*ytask{}}
 	r := newPrng(seed ^ 0x5151)
+	s.preempt = uint64(p.cfg("preempt"))
 	// node id flavours
 	switch p.cfg("node") {
 	case 0:
@@ -539,7 +547,17 @@ func (s *storeSim) doPut(op opSpec) {
 	before := s.scan()
 	radBefore := s.st.Radius().Clone()
 	s.ever[id] = append(s.ever[id], val)
+	if s.preempt > 0 {
+		verifPreemptMe(s.preempt, uint64(op.n(2))^0x9e37)
+	}
 	err := s.st.Put(nil, id[:], val)
+	if s.preempt > 0 {
+		s.preempts += verifPreemptMe(0, 0)
+		w.res.Faults["preemption"] = int(s.preempts)
+	}
+	if fslog {
+		println("PUT done", short(id), len(val))
+	}
 	w.op("put id=%s size=%d -> %v", short(id), len(val), err)
 	switch {
 	case err == nil:
@@ -707,6 +725,9 @@ func (s *storeSim) doCrashRestart() {
 			w.violate("C17", "crash-value", "%s: id %s holds %d bytes that were never put under it", s.lastCrash, short(id), len(val))
 		}
 		s.model[id] = val
+	}
+	if fslog {
+		println("RESTART", s.lastCrash, "persisted", v.persisted, "real", v.real, "items", len(v.items), "foundOnDisk", s.persistedAtOpen)
 	}
 	if v.persisted < v.real {
 		w.violate("C17", "crash-under-report", "%s: persisted usage %d < bytes present %d", s.lastCrash, v.persisted, v.real)
@@ -1127,6 +1148,9 @@ func genCrashAll(r *prng) *plan {
 	p.Cfg["idflavour"] = int64(r.intn(3))
 	p.Cfg["sched"] = 1
 	p.Cfg["stride"] = 1
+	if r.chance(50) {
+		p.Cfg["preempt"] = int64([]int{1, 2, 5, 20}[r.intn(4)])
+	}
 	// pre-fill close to the capacity with one large item, then a few small puts that cross it
 	p.Ops = append(p.Ops, opSpec{K: "put", N: []int64{0, int64(880_000 + r.intn(60_000)), int64(r.u64() >> 1)}})
 	n := 3 + r.intn(5)
@@ -1164,7 +1188,7 @@ func runStoreCrashAll(seed uint64) {
 			s := newStoreSimFor(w, p, seed)
 			s.disk.crashAt = k
 			s.crashMode = mode
-			s.crashSeed = seed*31 + uint64(k*4+mi)
+			s.crashSeed = seed*31 + uint64(k*4+mi) + uint64(envInt("VERIF_TORNSEED", 0))*1000003
 			crashed := false
 			for i, op := range p.Ops {
 				s.opIdx = i
@@ -1215,6 +1239,7 @@ func runStoreCrashAll(seed uint64) {
 func newStoreSimFor(w *world, p *plan, seed uint64) *storeSim {
 	s := &storeSim{w: w, p: p, model: map[[32]byte][]byte{}, ever: map[[32]byte][][]byte{}, tasks: map[uint64]*ytask{}}
 	r := newPrng(seed ^ 0x5151)
+	s.preempt = uint64(p.cfg("preempt"))
 	switch p.cfg("node") {
 	case 0:
 		copy(s.nodeID[:], r.bytes(32))
